@@ -68,7 +68,9 @@ def decode(data: bytes, max_n: int):
 def main():
     modname, seed, shard, runs, max_n, out = sys.argv[1], int(sys.argv[2]), int(sys.argv[3]), int(sys.argv[4]), int(sys.argv[5]), sys.argv[6]
     corpus_mode = sys.argv[7] if len(sys.argv) > 7 else "empty"
-    sys.path.insert(0, str(VERIF / ".deps"))
+    for dep in (Path("/verif/.deps"), VERIF / ".deps"):  # the second wins; /verif/.deps serves snapshots of /verif (vp run)
+        if dep.is_dir():
+            sys.path.insert(0, str(dep))
     try:
         import atheris
     except Exception:
